@@ -351,7 +351,7 @@ def check_basis(part, basis, L, tag, semantic="table", deep=0, full_scratch_verd
     same("db_cached", lambda: PW.make_dfa_for_basis_from_db(list(B)))
     if len(B) == 1:
         same("make_dfa_for_perm", lambda: PW.make_dfa_for_perm(B[0]))
-    else:
+    elif len(B) <= 4:       # the product of more automata is not bounded by anything small
         # own union of the per-permutation automata as loaded from the database
         try:
             parts = [to_plain(PW.load_dfa_for_perm(b)) for b in B]
@@ -898,6 +898,42 @@ def pool(quick):
                 longs.append(p)
         push([S6_NONPIN[0], (0, 1, 2, 3)])
         push([S6_NONPIN[1], S6_NONPIN[0], S6_PIN[0]])
+    # the CARDINALITY dimension: a union that is folded in some other shape (pairwise, tree,
+    # chunks) can lose an element only for certain numbers of elements.  Antichains of equal
+    # length are used because there every single element is indispensable (the pin sequence that
+    # draws exactly that permutation contains no other element), so the loss of ANY element at
+    # ANY position shows up in the trace conformance at word length |pattern| + 1.  The list order
+    # matters to the from-scratch route (the database route sorts), so both orders are given.
+    # Ordered lists: not de-duplicated against the sets above.
+    def push_ordered(b):
+        b = tuple(b)
+        if ("ordered", b) not in seen:
+            seen.add(("ordered", b))
+            out.append(list(b))
+
+    s4 = s[4]
+    s3 = s[3]
+    kmax = 16 if quick else 24
+    for k in range(5, kmax + 1):
+        push_ordered(reversed(s4[:k]))            # first k of S4, given in decreasing order
+        push_ordered(s4[len(s4) - k:])            # last k of S4, given in increasing order
+        if not quick:
+            push_ordered(s4[:k])
+            push_ordered(reversed(s4[len(s4) - k:]))
+    # non-minimal lists (legitimate inputs): all of S3 and a prefix of S4; only the loss of an
+    # element of S3 is observable here
+    for k in range(7, kmax + 1):
+        push_ordered(list(reversed(s4[:k - 6])) + list(reversed(s3)))
+        if not quick:
+            push_ordered(s3 + s4[:k - 6])
+    if not quick:
+        s5 = R.perms(5)
+        for k in range(5, 17):
+            b = s5[:k]
+            push_ordered(reversed(b))
+            for p in b:
+                if p not in longs:
+                    longs.append(p)
     return out, longs
 
 
@@ -974,19 +1010,28 @@ def run(ctx, only=None):
                                  "new_states_per_depth": []}
     if want("conform"):
         # the few slow ones (patterns of length >= 5) first, the rest simplest first
-        order = sorted(range(len(bases)), key=lambda i: (max(len(p) for p in bases[i]) < 5, i))
+        order = sorted(range(len(bases)),
+                       key=lambda i: (max(len(p) for p in bases[i]) < 5 and len(bases[i]) < 5, i))
         for i in order:
             b = bases[i]
             k = max(len(p) for p in b)
             Lb = klen[max(k, 4)]
-            full = quick and k <= 3 or not quick and (k <= 3 or len(b) == 1 and k <= 4)
+            full = quick and k <= 3 or not quick and (k <= 3 or len(b) == 1 and k <= 4
+                                                      or len(b) >= 5 and k <= 4)
             tasks.append(("basis", (i, b, Lb, deep if k <= 4 else 0, bool(full))))
         ctx.bounds["conform"] = {
             "bases": len(bases),
             "pool": "all single patterns of length 0..4; all pairs of length 1..3; pairs with a "
                     "pattern of length 4 and triples of length 2..3 (%s); 9 selected bases; single "
-                    "patterns of length 5%s" % ("one per symmetry class" if quick else "all",
-                                                "" if quick else " and 6 (two of them not pin permutations)"),
+                    "patterns of length 5%s; pairs/triples whose first sorted element is not a pin "
+                    "permutation; cardinality family: for every k in 5..%d the first k of S4 "
+                    "(decreasing order) and the last k of S4 (increasing order)%s, and for k >= 7 "
+                    "S3 + the first k-6 of S4 (non-minimal)%s"
+                    % ("one per symmetry class" if quick else "all",
+                       "" if quick else " and 6 (two of them not pin permutations)",
+                       16 if quick else 24,
+                       "" if quick else " each in both orders",
+                       "" if quick else " in both orders; the first k of S5, k in 5..16"),
             "word_lengths": "2..%d (patterns <= 4), 2..%d (length 5)%s" % (
                 klen[4], klen[5], "" if quick else ", 2..%d (length 6)" % klen[6]),
             "deep_avoiding_word_length": deep,
